@@ -84,15 +84,25 @@ def symbol_replacements():
 
 
 def numbering_shape():
-    """Facts about get_name the model relies on: counter keyed by (get_dir(), item.name),
-    suffix only when num > 1, lower() applied to the output name."""
-    src = ast.unparse(_method(ast.parse(_src("ford/sourceform.py")), "NameSelector", "get_name"))
-    need = ["self._counts[item.get_dir()][item.name] + 1", "num = 1", "name = item.name.lower()",
-            "if num > 1", "name + '~' + str(num)", "if item in self._items", "'__unnamed__'"]
+    """Facts about get_name the model relies on: memo on `item in self._items`, counter keyed by
+    (get_dir(), <key>), suffix only when num > 1, lower() applied to the output name.
+    Returns True when <key> is the lower-cased name (repaired, commit 8dec555), False when it is
+    the name as written (asIs)."""
+    fn = _method(ast.parse(_src("ford/sourceform.py")), "NameSelector", "get_name")
+    src = ast.unparse(fn)
+    need = ["num = 1", "name = item.name.lower()", "if num > 1", "name + '~' + str(num)",
+            "if item in self._items", "'__unnamed__'"]
     missing = [n for n in need if n not in src]
     if missing:
         raise LookupError(f"NameSelector.get_name no longer has the modelled shape: missing {missing}")
-    return True
+    as_is = "self._counts[item.get_dir()][item.name] + 1" in src and "self._counts[item.get_dir()][item.name] = num" in src
+    lower_key = ("self._counts[item.get_dir()][name] + 1" in src and "self._counts[item.get_dir()][name] = num" in src
+                 and src.index("name = item.name.lower()") < src.index("self._counts[item.get_dir()][name] + 1")
+                 # the symbol replacements must come after the count, the key is the plain lower-cased name
+                 and src.index("self._counts[item.get_dir()][name] = num") < src.index("name.replace("))
+    if as_is == lower_key:
+        raise LookupError("NameSelector.get_name: the key of the counter is neither item.name nor item.name.lower()")
+    return lower_key
 
 
 def fortran_file_order():
@@ -327,7 +337,7 @@ def uses_is_set():
 
 def generate() -> dict:
     sym = symbol_replacements()
-    numbering_shape()
+    count_lower = numbering_shape()
     ffo = fortran_file_order()
     containers, chain_order = correlate_tables()
     fsorted, fsrc = file_iter_sorted()
@@ -349,6 +359,8 @@ def generate() -> dict:
          "/-- dict literal of NameSelector.get_name -/",
          "def symbolReplacements : List (Char × Str) := "
          + lean_list(f"({repr(k) if k != chr(39) else chr(34)+k+chr(34)}, {lean_str(v)})".replace("'", "'") for k, v in sym),
+         "", "/-- NameSelector.get_name: is the counter kept under the lower-cased name (True) or the name as written? -/",
+         f"def countKeyLower : Bool := {'true' if count_lower else 'false'}",
          "", "/-- order of the `for x in new_file.<attr>` loops of Project._fortran_file -/",
          "def fortranFileOrder : List Str := " + lean_list(lean_str(a) for a in ffo),
          "", "/-- CONTAINERS of Project.correlate, in dict order -/",
@@ -378,7 +390,7 @@ def generate() -> dict:
     text = "\n".join(L)
     common.write_if_changed(common.LEAN / "FordModel" / "Generated" / "C12.lean", text)
     return {"symbolReplacements": sym, "fortranFileOrder": ffo, "containersOrder": containers,
-            "unitChainOrder": chain_order, "pageListOrder": pages, "fileIterSorted": fsorted,
+            "unitChainOrder": chain_order, "pageListOrder": pages, "fileIterSorted": fsorted, "countKeyLower": count_lower,
             "usesIterSorted": usorted, "usesIsSet": uset, "writeoutSteps": steps, "outDirs": dirs,
             "nodeIterSites": sites, "serialGraphs": serial, "parallelGraphs": par,
             "find_all_files_returns": find_all_files_returns_set()}
